@@ -1,33 +1,22 @@
 ---------------------------- MODULE Glob ----------------------------
+(* Glob matching as github.com/bmatcuk/doublestar v1 does it, on paths split into segments. *)
+(* A pattern segment is a sequence of one-character strings; "*" matches any run of          *)
+(* characters within a segment, "?" exactly one; the segment <<"*","*">> is the doublestar   *)
+(* segment and matches zero or more whole segments - except that a trailing one needs at     *)
+(* least one segment (doublestar: "a/**" does not match "a").                                 *)
 EXTENDS Naturals, Sequences, TLC
-\* a name / pattern segment is a sequence of one-character strings; "*" and "?" are wildcards; <<"**">> is the doublestar segment
 RECURSIVE SegMatch(_, _)
 SegMatch(p, n) ==
   IF p = <<>> THEN n = <<>>
   ELSE IF Head(p) = "*" THEN SegMatch(Tail(p), n) \/ (n # <<>> /\ SegMatch(p, Tail(n)))
   ELSE IF n = <<>> THEN FALSE
   ELSE (Head(p) = "?" \/ Head(p) = Head(n)) /\ SegMatch(Tail(p), Tail(n))
+IsDS(seg) == seg = <<"*", "*">>
 RECURSIVE PathMatch(_, _)
 PathMatch(P, Q) ==
   IF P = <<>> THEN Q = <<>>
-  ELSE IF Head(P) = <<"**">> THEN PathMatch(Tail(P), Q) \/ (Q # <<>> /\ PathMatch(P, Tail(Q)))
+  ELSE IF IsDS(Head(P)) THEN
+         IF Tail(P) = <<>> THEN Q # <<>>                                       \* trailing **: one segment or more
+         ELSE PathMatch(Tail(P), Q) \/ (Q # <<>> /\ PathMatch(P, Tail(Q)))
   ELSE Q # <<>> /\ SegMatch(Head(P), Head(Q)) /\ PathMatch(Tail(P), Tail(Q))
-
-S(str) == str   \* placeholder
-a == <<"a">>  b == <<"b">>  ab == <<"a","b">>  star == <<"*">>  q == <<"?">>  dstar == <<"**">>
-astar == <<"a","*">>
-Tests == <<
-  PathMatch(<<a, dstar, b>>, <<a, b>>),            \* TRUE  a/**/b ~ a/b
-  PathMatch(<<a, dstar, b>>, <<a, ab, b>>),        \* TRUE  a/**/b ~ a/ab/b
-  PathMatch(<<a, star>>, <<a, ab>>),               \* TRUE  a/* ~ a/ab
-  PathMatch(<<a, star>>, <<a, ab, b>>),            \* FALSE a/* !~ a/ab/b
-  PathMatch(<<astar>>, <<ab>>),                    \* TRUE  a* ~ ab
-  PathMatch(<<q>>, <<ab>>),                        \* FALSE ? !~ ab
-  PathMatch(<<dstar, b>>, <<b>>),                  \* TRUE  **/b ~ b
-  PathMatch(<<dstar>>, <<a, b>>)                   \* TRUE  ** ~ a/b
->>
-ASSUME PrintT(Tests)
-VARIABLE x
-Init == x = 0
-Next == UNCHANGED x
 =====================================================================
